@@ -8,6 +8,7 @@ import StepModel.StrcmpOrder
 import StepModel.GenSelectOrder
 import StepModel.GenPyModule
 import StepModel.GenPyModuleLemmas
+import StepModel.Generated.GenInitGen
 /-!
 # C12 — generators and the pretty printer are deterministic functions of their input
 
@@ -250,6 +251,17 @@ theorem C12_python_module_order_names_only (α β : Ambient) (base base' : Nat) 
 theorem C12_python_types_defined_exactly_once (types : List PyModule.T) (hnd : (types.map (·.name)).Nodup) :
     (PyModule.typesBeforeEntities types ++ PyModule.typesAfterEntities types).Perm (types.map (·.name)) :=
   PyModule.types_order_perm types hnd
+
+/-! ## memory the generators allocate and read -/
+
+/-- A regenerated tie, not an analysis: every struct the generators `malloc` (the select and entity tags hung on `clientData`) has
+    each field that is read anywhere assigned in the statements that directly follow the allocation — no decision of exp2cxx,
+    exp2python or exppp is taken on what a recycled heap chunk happened to hold (a value that changes with the heap layout, hence
+    between two identical runs).  `uninitialisedFields` is computed by tools/extract.d/geninit.py from the sources; seed C12-e2
+    (`tag -> complete = 0;` dropped in TYPEselect_print) puts `("selects.c", "TYPEselect_print", "SelectTag_", "complete")` there. -/
+theorem C12_malloced_structs_initialised :
+    Generated.GenInit.uninitialisedFields = [] ∧ Generated.GenInit.mallocSites.length ≥ 1 := by
+  decide
 
 /-! ## compstructs.cc -/
 
